@@ -383,4 +383,4 @@ def _base(fix, level):  # noqa: ANN001
                      st.booleans(), st.booleans(), st.sampled_from([False, False, True])).map(lambda t: fix(t[0], t[1], t[2], t[3], t[4]))
 
 
-PARTS = [Part("hierarchies", check_hierarchy, strategy=st_hierarchy, quick=400, thorough=16000)]
+PARTS = [Part("hierarchies", check_hierarchy, strategy=st_hierarchy, quick=800, thorough=40000)]
